@@ -203,6 +203,7 @@ def gen_guards():
     for c in (0, 1, 2, 3, 7, 8, 9):
         for i in (0, 1, c - 1 if c else 0, c, c + 1, -1, M63):
             cases.append('g mmrm %d %d' % (c, i))
+            cases.append('g mmmk %d %d' % (c, i))
     for c in (0, 1, 3, 6):
         for i in B(c):
             cases += ['g selidx %d %d' % (c, i), 'g row %d %d' % (c, i), 'g tins %d %d' % (c, i), 'g tupd %d %d' % (c, i)]
